@@ -6,7 +6,10 @@ ROOT = os.path.dirname(os.path.dirname(os.path.abspath(__file__)))
 PAIRS = {'C01-m1': ['C01'], 'C01-m2': ['C01', 'C20'], 'C02-m1': ['C02'], 'C02-m2': ['C02'], 'C03-m1': ['C03'], 'C03-m2': ['C03'], 'C04-m1': ['C04'], 'C04-m2': ['C04'],
          'C05-m1': ['C05'], 'C05-m2': ['C05'], 'C08-m1': ['C08'], 'C08-m2': ['C08'], 'C09-m1': ['C09'], 'C09-m2': ['C09'], 'C10-m1': ['C10'], 'C10-m2': ['C10', 'C09'],
          'C12-m1': ['C12'], 'C12-m2': ['C12'], 'C13-m1': ['C13', 'C14'], 'C13-m2': ['C13', 'C15'], 'C14-m1': ['C14'], 'C14-m2': ['C14'], 'C15-m2': ['C15'],
-         'C16-m1': ['C16'], 'C16-m2': ['C16'], 'C18-m1': ['C18'], 'C18-m2': ['C18'], 'C19-m1': ['C19', 'C14'], 'C19-m2': ['C19'], 'C20-m1': ['C20'], 'C20-m2': ['C20']}
+         'C16-m1': ['C16'], 'C16-m2': ['C16'], 'C18-m1': ['C18'], 'C18-m2': ['C18'], 'C19-m1': ['C19', 'C14'], 'C19-m2': ['C19'], 'C20-m1': ['C20'], 'C20-m2': ['C20'],
+         'C02-m3': ['C02'], 'C02-m4': ['C02', 'C01'], 'C03-m3': ['C03'], 'C03-m4': ['C03'], 'C04-m3': ['C04'], 'C04-m4': ['C04'], 'C08-m3': ['C08'], 'C08-m4': ['C08'],
+         'C13-m3': ['C13', 'C15'], 'C13-m4': ['C13', 'C15', 'C14'], 'C15-m3': ['C15', 'C14'], 'C15-m4': ['C15'], 'C19-m3': ['C19', 'C14'], 'C19-m4': ['C19', 'C20'],
+         'C01-m3': ['C01'], 'C01-m4': ['C01']}
 only = sys.argv[1:]
 for mid, checks in PAIRS.items():
     if only and mid not in only:
